@@ -21,10 +21,10 @@ class N:
 
 
 COMPOUND_PY = ["if", "if-else", "while", "while-else", "forin", "for-else", "try-except", "try-except-else-finally",
-               "try-finally", "def"]
-COMPOUND_C = ["if", "if-else", "while", "cfor", "dowhile", "forin", "switch", "try-except", "try-finally"]
+               "try-finally", "def", "class"]
+COMPOUND_C = ["if", "if-else", "while", "cfor", "dowhile", "forin", "switch", "try-except", "try-finally", "class"]
 NBODIES = {"if": 1, "if-else": 2, "while": 1, "while-else": 2, "forin": 1, "for-else": 2, "try-except": 2,
-           "try-except-else-finally": 4, "try-finally": 2, "def": 1, "cfor": 1, "dowhile": 1, "switch": 3}
+           "try-except-else-finally": 4, "try-finally": 2, "def": 1, "class": 1, "cfor": 1, "dowhile": 1, "switch": 3}
 LOOPS = {"while", "while-else", "forin", "for-else", "cfor", "dowhile"}
 
 
@@ -74,7 +74,7 @@ def items(ncomp, in_loop, in_try, compounds, depth, aux=False):
                     return
                 body_in_loop = loop_inside if not (kind in ("while-else", "for-else") and i == 1) else in_loop
                 body_in_try = in_try or (kind.startswith("try") and i == 0)
-                if kind == "def":
+                if kind in ("def", "class"):
                     body_in_loop = False
                     body_in_try = False
                 is_aux = (i >= 1 and kind not in ("if-else", "switch"))
@@ -113,9 +113,9 @@ class Ctx:
         return self.k
 
 
-def render_python(name, body):
+def render_python(name, body, params=True):
     ctx = Ctx()
-    lines = [f"def {name}(c, l):"] + _py(body, 1, ctx)
+    lines = [f"def {name}({'c, l' if params else ''}):"] + _py(body, 1, ctx)
     return "\n".join(lines) + "\n"
 
 
@@ -172,24 +172,32 @@ def _py(nodes, ind, ctx):
         elif k == "def":
             out.append(f"{pad}def inner{ctx.marker()}(c, l):")
             out += _py(n.bodies[0], ind + 1, ctx)
+        elif k == "class":
+            m = ctx.marker()
+            out.append(f"{pad}class K{m}:")
+            out.append(f"{pad}    fld{m} = {m}")
+            out.append(f"{pad}    def meth{m}(self, c, l):")
+            out += _py(n.bodies[0], ind + 2, ctx)
         else:
             raise AssertionError(k)
     return out
 
 
-def render_c_family(name, body, lang):
-    """JavaScript / Java / C / PHP / Go renderings of the C-family skeletons (method text only)."""
+def render_c_family(name, body, lang, params=True):
+    """JavaScript / Java / C / PHP / Go renderings of the C-family skeletons (method text only).
+    params=False renders a parameterless method (c and l are then globals / static fields)."""
     ctx = Ctx()
     lines = _cf(body, 1, ctx, lang)
     pad = "    "
     if lang == "javascript":
-        return f"function {name}(c, l) {{\n" + "\n".join(lines) + "\n}\n"
+        return f"function {name}({'c, l' if params else ''}) {{\n" + "\n".join(lines) + "\n}\n"
     if lang == "php":
-        return f"function {name}($c, $l) {{\n" + "\n".join(lines) + "\n}\n"
+        glob = "" if params else "    global $c, $l;\n"
+        return f"function {name}({'$c, $l' if params else ''}) {{\n" + glob + "\n".join(lines) + "\n}\n"
     if lang == "java":
-        return f"    static int {name}(boolean c, int[] l) {{\n" + "\n".join(pad + x for x in lines) + f"\n{pad}{pad}return 0;\n    }}\n"
+        return f"    static int {name}({'boolean c, int[] l' if params else ''}) {{\n" + "\n".join(pad + x for x in lines) + f"\n{pad}{pad}return 0;\n    }}\n"
     if lang == "c":
-        return f"int {name}(int c, int *l) {{\n" + "\n".join(lines) + f"\n{pad}return 0;\n}}\n"
+        return f"int {name}({'int c, int *l' if params else ''}) {{\n" + "\n".join(lines) + f"\n{pad}return 0;\n}}\n"
     if lang == "go":
         return f"func {name}(c bool, l []int) int {{\n" + "\n".join(lines) + f"\n{pad}return 0\n}}\n"
     raise AssertionError(lang)
@@ -286,6 +294,31 @@ def _cf(nodes, ind, ctx, lang):
                 out.append(f"{pad}default:")
                 out += _cf(n.bodies[2], ind + 1, ctx, lang)
                 out.append(f"{pad}}}")
+        elif k == "class":
+            m = ctx.marker()
+            if lang == "java":
+                out.append(f"{pad}class K{m} {{")
+                out.append(f"{pad}    int fld{m} = {m};")
+                out.append(f"{pad}    class N{m} {{ int g{m}; }}")
+                out.append(f"{pad}    int meth{m}(boolean c, int[] l) {{")
+                out += _cf(n.bodies[0], ind + 2, ctx, lang)
+                out.append(f"{pad}        return 0;")
+                out.append(f"{pad}    }}")
+                out.append(f"{pad}}}")
+            elif lang == "javascript":
+                out.append(f"{pad}class K{m} {{")
+                out.append(f"{pad}    meth{m}(c, l) {{")
+                out += _cf(n.bodies[0], ind + 2, ctx, lang)
+                out.append(f"{pad}    }}")
+                out.append(f"{pad}}}")
+            elif lang == "php":
+                out.append(f"{pad}$fn{m} = function ($c, $l) {{")
+                out += _cf(n.bodies[0], ind + 1, ctx, lang)
+                out.append(f"{pad}}};")
+            else:
+                out.append(f"{pad}{{")
+                out += _cf(n.bodies[0], ind + 1, ctx, lang)
+                out.append(f"{pad}}}")
         elif k in ("try-except", "try-finally"):
             if lang in ("c", "go"):
                 out.append(f"{pad}{{")
@@ -309,11 +342,11 @@ def _cf(nodes, ind, ctx, lang):
 
 def wrap_file(lang, methods):
     if lang == "java":
-        return "class M {\n    static void out(int k) {}\n" + "\n".join(methods) + "}\n"
+        return "class M {\n    static boolean c;\n    static int[] l;\n    static void out(int k) {}\n" + "\n".join(methods) + "}\n"
     if lang == "php":
-        return "<?php\nfunction out($k) {}\n" + "\n".join(methods)
+        return "<?php\n$c = 1;\n$l = [1];\nfunction out($k) {}\n" + "\n".join(methods)
     if lang == "c":
-        return "void out(int k);\n" + "\n".join(methods)
+        return "int c;\nint *l;\nvoid out(int k);\n" + "\n".join(methods)
     if lang == "go":
         return "package main\nfunc out(k int) {}\n" + "\n".join(methods)
     return "\n".join(methods)
